@@ -310,8 +310,8 @@ theorem unaryAxes_ok {lhs out ax axP : List Nat} (h : unaryAxes lhs out ax = .ok
   split at h; · cases h
   split at h; · cases h
   rename_i h1 h2 h3 h4
-  simp only [bne_iff_ne, ne_eq, not_not, Bool.not_eq_true', Bool.not_eq_false,
-    Bool.not_eq_eq_eq_not, Bool.not_true, Bool.not_false] at h1 h2 h3 h4
+  simp only [bne_iff_ne, ne_eq, not_not, Bool.not_eq_false,
+    Bool.not_eq_eq_eq_not, Bool.not_true] at h1 h2 h3 h4
   have B : Binding lhs ax out :=
     ⟨h1, (bijective_iff _).1 (by simpa using h2), (all_contains_iff _ _).1 (by simpa using h3),
       (nodupB_iff _).1 (by simpa using h4)⟩
@@ -329,8 +329,8 @@ theorem binaryAxes_ok {lA lB out axL axR axP : List Nat}
   split at h; · cases h
   split at h; · cases h
   rename_i h1 h2 h3 h4
-  simp only [bne_iff_ne, ne_eq, Bool.or_eq_true, not_or, not_not, Bool.not_eq_true',
-    Bool.not_eq_false, Bool.not_eq_eq_eq_not, Bool.not_true, Bool.not_false] at h1 h2 h3 h4
+  simp only [bne_iff_ne, ne_eq, Bool.or_eq_true, not_or, not_not,
+    Bool.not_eq_false, Bool.not_eq_eq_eq_not, Bool.not_true] at h1 h2 h3 h4
   have hlen : (lA ++ lB).length = (axL ++ axR).length := by
     simp [h1.1, h1.2]
   have B : Binding (lA ++ lB) (axL ++ axR) out :=
